@@ -36,7 +36,7 @@ NoBody == [kind |-> "none", chunks |-> <<>>]
 Benign == [n |-> <<"Q">>, v |-> <<"a">>, skip |-> FALSE]
 Hdr(n, v) == [n |-> n, v |-> v, skip |-> FALSE]
 Base(level) == [level |-> level, method |-> <<"G","E","T">>, slash |-> TRUE, url |-> <<"a">>,
-                hdrs |-> <<Hdr(<<"X">>, <<"a">>), Benign>>, body |-> NoBody]
+                hdrs |-> <<Hdr(<<"X">>, <<"a">>), Benign>>, body |-> NoBody, chunked |-> FALSE]
 
 Field(r, f) == CASE f = "m" -> r.method [] f \in {"u", "d"} -> r.url [] f = "n" -> r.hdrs[1].n [] f = "v" -> r.hdrs[1].v
 SetField(r, f, s) == CASE f = "m" -> [r EXCEPT !.method = s] [] f \in {"u", "d"} -> [r EXCEPT !.url = s]
